@@ -57,6 +57,12 @@ func c04SFOVariants() map[string][]byte {
 		"cyr9": "БЛЕС00001", "cyr15a": strings.Repeat("Ж", 15) + "AB", "invalid-utf8-31": strings.Repeat("\xff", 31), "emoji8": strings.Repeat("😀", 8)} {
 		v["titleid-"+name] = sfoBytes([][2]string{{"TITLE_ID", id}})
 	}
+	// a value shorter than its declared length, the rest of the slot zero (some tools store the whole slot)
+	for _, id := range []string{"", "A", "AB", "ABC", "ABCD", "ABCDE"} {
+		for _, pad := range []int{5, 12, 29} {
+			v[fmt.Sprintf("titleid-nulpad-%d-%d", len(id), pad)] = sfoBytes([][2]string{{"TITLE_ID", id + strings.Repeat("\x00", pad)}})
+		}
+	}
 	v["no-titleid"] = sfoBytes([][2]string{{"TITLE", "x"}})
 	v["key-without-nul"] = bytes.TrimRight(good, "\x00")
 	return v
